@@ -207,6 +207,25 @@ func (t *usTarget) Iter(lo, hi []byte) (unionstore.Iterator, error)        { ret
 func (t *usTarget) IterReverse(hi, lo []byte) (unionstore.Iterator, error) { return t.us.IterReverse(hi, lo) }
 func (t *usTarget) Close()                                                 {}
 
+// snapBuf adapts the staging-blind view of a MemBuffer (SnapshotGetter) to transaction.BatchSnapshotBufferGetter
+type snapBuf struct{ g kv.Getter }
+
+func (b snapBuf) Get(ctx context.Context, k []byte, o ...kv.GetOption) (kv.ValueEntry, error) {
+	return b.g.Get(ctx, k, o...)
+}
+func (b snapBuf) BatchGet(ctx context.Context, keys [][]byte, _ ...kv.BatchGetOption) (map[string]kv.ValueEntry, error) {
+	m := map[string]kv.ValueEntry{}
+	for _, k := range keys {
+		v, err := b.g.Get(ctx, k)
+		if err == nil {
+			m[string(k)] = v
+		} else if !tikverr.IsErrNotFound(err) {
+			return nil, err
+		}
+	}
+	return m, nil
+}
+
 // ---------------------------------------------------------------- pipelined buffer over a scripted flush function
 // The flush function of PipelinedMemDB is scripted: it waits until the program lets it complete, then copies the
 // flushed buffer (tombstones included) into `remote`, which is also what the buffer's batch getter answers from.
@@ -1281,6 +1300,96 @@ func execProgram(id int, p *Program, emit func(string)) (*failure, bool) {
 			if !oracle("snapshot-read-ignores-staging", res == want) {
 				setFail("snapshot-read-ignores-staging", idx, res+" want "+want)
 			}
+		case "sbget":
+			// BufferSnapshotBatchGetter: the second copy of the batch-get merge loop, over the staging-blind view
+			if _, isPipe := t.(*pipeTarget); isPipe {
+				continue
+			}
+			var keys [][]byte
+			var args []string
+			for _, h := range o.Keys {
+				keys = append(keys, unhx(h))
+				args = append(args, hd(h))
+			}
+			var m map[string]kv.ValueEntry
+			var berr error
+			var handed [][]byte
+			have := false
+			pan := protect(func() {
+				switch tt := t.(type) {
+				case *usTarget:
+					tt.snap.handed = nil
+					m, berr = transaction.NewBufferSnapshotBatchGetter(snapBuf{buf.SnapshotGetter()}, tt.snap).BatchGet(context.Background(), keys)
+					handed, have = tt.snap.handed, true
+				case *txnTarget:
+					m, berr = transaction.NewBufferSnapshotBatchGetter(snapBuf{buf.SnapshotGetter()}, tt.txn.GetSnapshot()).BatchGet(context.Background(), keys)
+				}
+			})
+			res := ""
+			if pan != "" {
+				res = "panic"
+			} else if berr != nil {
+				res = "err"
+			} else {
+				var l []KV
+				for k, v := range m {
+					l = append(l, KV{[]byte(k), v.Value})
+				}
+				sort.Slice(l, func(i, j int) bool { return bytes.Compare(l[i].K, l[j].K) < 0 })
+				hs := "?"
+				if have {
+					var hl []string
+					for _, h := range handed {
+						hl = append(hl, hd(hx(h)))
+					}
+					hs = strings.Join(hl, ",")
+					if hs == "" {
+						hs = "none"
+					}
+				}
+				res = "handed=" + hs + "|res=" + kvsString(l)
+			}
+			line(idx, "sbget", []string{strings.Join(args, ",")}, res)
+			base := ref.buf
+			if len(ref.stack) > 0 {
+				base = ref.stack[0]
+			}
+			okS := pan == "" && berr == nil
+			if okS {
+				want := map[string][]byte{}
+				for _, k := range keys {
+					if bv, has := base[string(k)]; has {
+						if len(bv) > 0 {
+							want[string(k)] = bv
+						}
+					} else if sv, has := ref.snap[string(k)]; has {
+						want[string(k)] = sv
+					}
+				}
+				okS = len(want) == len(m)
+				for k, v := range want {
+					if g, f := m[k]; !f || !bytes.Equal(g.Value, v) {
+						okS = false
+					}
+				}
+				if have {
+					hm := map[string]bool{}
+					for _, h := range handed {
+						hm[string(h)] = true
+						if _, b := base[string(h)]; b {
+							okS = false
+						}
+					}
+					for _, k := range keys {
+						if _, b := base[string(k)]; !b && !hm[string(k)] {
+							okS = false
+						}
+					}
+				}
+			}
+			if !oracle("snapshot-batchget=base-overlay", okS) {
+				setFail("snapshot-batchget=base-overlay", idx, res)
+			}
 		case "siter", "sriter":
 			lo, hi := unhx(o.Lo), unhx(o.Hi)
 			rev := o.Op == "sriter"
@@ -1708,7 +1817,19 @@ func genProgram(r *rand.Rand, targetKind string, nops int, big bool) *Program {
 				p.Ops = append(p.Ops, Op{Op: "iterf", Lo: hx(genBound(r, pool)), Hi: hx(genBound(r, pool))})
 			}
 		case x >= 116 && x < 118:
-			p.Ops = append(p.Ops, Op{Op: "sget", K: hx(pick())})
+			if r.Intn(2) == 0 {
+				n := 1 + r.Intn(4)
+				var ks []string
+				for i := 0; i < n; i++ {
+					ks = append(ks, hx(pick()))
+				}
+				if r.Intn(2) == 0 {
+					ks = append(ks, ks[r.Intn(len(ks))])
+				}
+				p.Ops = append(p.Ops, Op{Op: "sbget", Keys: ks})
+			} else {
+				p.Ops = append(p.Ops, Op{Op: "sget", K: hx(pick())})
+			}
 		case x >= 118 && x < 121:
 			kind := "siter"
 			if r.Intn(2) == 0 {
